@@ -46,6 +46,11 @@ ALPHABET = [
     ('proto-tmp', 500, JSON_CT, ('json', lambda t: [E('proto.alpha.michelson_v1.runtime_error', 'temporary', t)]), 'full'),
     ('mixed-proto', 500, JSON_CT, ('json', lambda t: [E('failure', 'temporary', t), E('proto.alpha.tez.subtraction_underflow', 'temporary', t)]), 'full'),
     ('proto-first', 502, JSON_CT, ('json', lambda t: [E('proto.alpha.gas_exhausted.operation', 'temporary', t), E('failure', 'temporary', t)]), 'full'),
+    # protocol errors under the names protocols really have (digits, a hyphen, mixed case), not only `alpha`
+    ('proto-real-tmp', 500, JSON_CT, ('json', lambda t: [E('proto.021-PsQuebec.michelson_v1.runtime_error', 'temporary', t)]), 'full'),
+    ('mixed-proto-real', 500, JSON_CT, ('json', lambda t: [E('failure', 'temporary', t), E('proto.016-PtMumbai.tez.subtraction_underflow', 'temporary', t)]), 'full'),
+    ('proto-real-first', 503, JSON_CT, ('json', lambda t: [E('proto.019-PtParisB.gas_exhausted.operation', 'temporary', t), E('failure', 'temporary', t)]), 'full'),
+    ('proto-genesis-tmp', 500, JSON_CT, ('json', lambda t: [E('proto.genesis.x', 'temporary', t)]), 'full'),
     ('proto-marker', 500, JSON_CT, ('json', lambda t: [E('proto.alpha.x.y', 'permanent', t, 'Assert_failure ' + MARK)]), 'full'),
     ('perm-marker', 500, JSON_CT, ('json', lambda t: [E('failure', 'permanent', t, 'Assert_failure src/' + MARK + ':1918')]), 'full'),
     ('nonstr-kind', 500, JSON_CT, ('json', lambda t: [E('node.x', 7, t)]), 'full'),
